@@ -582,3 +582,35 @@ def c08(tier):
         TT("cmp_tp_%s" % sn(op), C([("Me_9", binop(op, "Me_1", "Me_3"))]), 1)
         TT("cmp_date_%s" % sn(op), C([("Me_9", binop(op, "Me_2", "Me_4"))]), 1)
     return out
+
+
+# ------------------------------------------------------------------------------------------ C32 extra error-site templates
+def c32(tier):
+    """templates added for their runtime-error sites (the pools of C01-C08/C28 are analysed as well)"""
+    out = []
+    for op in ("sqrt", "ln", "exp", "abs", "-", "ceil", "floor"):
+        out.append(T("C32.un_%s_int" % sn(op), unop(op, "DS_6"), 1))
+        out.append(T("C32.un_%s_num" % sn(op), unop(op, "DS_N"), 1))
+    for op in ("log", "power", "mod", "/", "*", "+", "-"):
+        out.append(T("C32.bin_%s_int" % sn(op), binop(op, "DS_4", "DS_5"), 1))
+        out.append(T("C32.bin_%s_int_num" % sn(op), binop(op, "DS_6", "DS_N"), 1))
+        out.append(T("C32.bin_%s_sc" % sn(op), binop(op, "DS_6", 3), 1))
+        out.append(T("C32.calc_%s" % sn(op), calc("DS_1", [("measure", "Me_9", binop(op, "Me_1", "Me_2"))]), 1))
+        out.append(T("C32.calc_%s_ii" % sn(op), calc("DS_1", [("measure", "Me_9", binop(op, "Me_1", "Me_1"))]), 1))
+    out.append(T("C32.sum_int", agg("sum", "DS_4"), 3))
+    out.append(T("C32.sum_group", agg("sum", "DS_4", "group by", ["Id_1"]), 3))
+    out.append(T("C32.avg_int", agg("avg", "DS_4"), 3))
+    out.append(T("C32.an_sum", analytic("sum", "DS_4", partition_by=["Id_1"], order_by=[("Id_2", "asc")]), 3))
+    C = lambda items: calc("DS_M", [("measure", n, e) for n, e in items])  # noqa: E731
+
+    def TT(tid, expr, nrows=1, **kw):
+        d = dict(id="C32." + tid, ast=start(assign("DS_r", expr)), structs=TIME_STRUCTS, nrows=nrows, evaluator="time", timeout_ms=60000, samples=3,
+                 opts={"years": (1990, 2030)})
+        d.update(kw)
+        out.append(d)
+    for tgt in ("A", "S", "Q", "M", "W"):
+        TT("time_agg_tp_%s_any" % tgt, C([("Me_9", time_agg("Me_1", tgt))]))
+    for op in ("max", "min"):
+        TT("agg_%s_tp" % op, agg(op, keep("DS_M", ["Me_1"])), 2)
+        TT("agg_%s_tp_group" % op, agg(op, keep("DS_M", ["Me_1"]), "group by", ["Id_1"]), 2)
+    return out
